@@ -30,7 +30,8 @@ def counted {α} (p : P α) : P (List α) := do let n ← nat; many p n
 
 def kindOf : String → Option Kind
   | "container" => some .container | "list" => some .list | "leaf" => some .leaf | "leaf-list" => some .leaflist
-  | "choice" => some .choice | "case" => some .case | _ => none
+  | "choice" => some .choice | "case" => some .case | "action" => some .action | "input" => some .input | "output" => some .output
+  | "notification" => some .notif | _ => none
 
 def qname : P QName := do let m ← tok; let n ← tok; pure (m, n)
 
@@ -205,8 +206,8 @@ def showParts : Option (List Range.Part) → String
   | none => "-"
   | some ps => ",".intercalate (ps.map fun p => toString p.min ++ ".." ++ toString p.max)
 
-def showNode (path : String) (d : CData) : String :=
-  "|".intercalate [path, d.kind.name, if d.config then "W" else "R", toString d.status, if d.mand then "M" else "-",
+def showNode (top : Bool) (path : String) (d : CData) : String :=
+  "|".intercalate [path, if top && d.kind == .action then "RPC" else d.kind.name, if d.noCfg then "-" else if d.config then "W" else "R", toString d.status, if d.mand then "M" else "-",
     if d.presence then "P" else "-", if d.dflts.isEmpty then "-" else ",".intercalate d.dflts, toString d.min, toString d.max,
     match d.typ with | none => "-" | some t => t.base ++ ":" ++ showParts t.parts,
     sOptStr d.units, toString d.whens]
@@ -216,7 +217,7 @@ def dumpNode : Nat → String → CNode → List String
   | 0, _, _ => []
   | f + 1, pre, .mk d kids =>
     let path := pre ++ "/" ++ d.mod ++ ":" ++ d.name
-    showNode path d :: dumpList f path kids
+    showNode (pre == "") path d :: dumpList f path kids
 def dumpList : Nat → String → List CNode → List String
   | 0, _, _ => []
   | _, _, [] => []
